@@ -776,3 +776,19 @@ func (in *Interp) globalAddr(g *ssa.Global) *Value {
 	in.initGlobal(g, p)
 	return p
 }
+
+// whereAmI names the interpreted function on top of the stack and its caller (diagnostics).
+func (in *Interp) whereAmI() string {
+	fr := in.curFrame
+	if fr == nil {
+		return "?"
+	}
+	s := fr.fn.String()
+	if fr.caller != nil {
+		s += " <- " + fr.caller.fn.String()
+		if fr.caller.caller != nil {
+			s += " <- " + fr.caller.caller.fn.String()
+		}
+	}
+	return s
+}
